@@ -40,7 +40,9 @@ What is enumerated (exhaustively within the bound, no sampling):
               loadParameters() [value change {p by client, r by driver, q by driver}] saveParameters() (thorough: all;
               quick: no leading change, and without a reload only the plain save): after a loadParameters() that has read the damaged file, every due save must leave the
               complete current snapshot on disk and a restart must restore it.
-  roundtrip   every datatype of the type catalogue (depth <= 3; quick / thorough catalogue) x every valid value, set by a
+  roundtrip   every datatype of the type catalogue (depth <= 3; quick / thorough catalogue) x every valid value (for UTF-8
+              strings, also nested, additionally lone high / low surrogates, a reversed pair, surrogateescape code points,
+              astral characters, U+FFFF), set by a
               client (wire form) and by the driver (native form) -> saved -> loaded by a fresh node.
 
 Oracle (from the statement, nothing more):
@@ -1434,6 +1436,47 @@ def shard_restart(shard):
 
 # ---- S3 over the whole type catalogue
 
+# text that is a valid value of a UTF-8 string but not valid UTF-8 / not in the BMP: what json.loads makes of "\\ud83d", what
+# a driver gets from surrogateescape decoding, astral characters.  (The pair form high + low surrogate as two code points
+# is left out: JSON itself reads it back as the one astral character - recorded for C02, nothing C17 could demand.)
+EXTRA_TEXT = ['\ud83d', '\ude00', 'x \ud83d', '\ude00\ud83d', '\udc80', '\udcff', 'a\udc80b', '\U0001f600', '\U00010000z',
+              '\ud83d\U0001f600', '\u00b0\u00b5', '\uffff']
+
+
+def extra_valid(spec, entry):
+    """further valid values of a type: the texts above at every position that is a UTF-8 string (one position at a time,
+    the rest of a container taken from the first catalogue value that has this position)"""
+    k = spec[0]
+    if k == 'string':
+        lo, hi, utf8 = spec[1], spec[2], spec[3]
+        return [t for t in EXTRA_TEXT if utf8 and lo <= len(t) and (hi is None or len(t) <= hi)]
+    res = []
+    if k == 'array':
+        base = next((v for v in V.valid(spec, entry) if len(v)), None)
+        if base is not None:
+            for t in extra_valid(spec[1], entry):
+                for i in sorted({0, len(base) - 1}):
+                    new = list(base)
+                    new[i] = t
+                    res.append(new)
+    elif k == 'tuple':
+        base = V.valid(spec, entry)[0]
+        for i, m in enumerate(spec[1]):
+            for t in extra_valid(m, entry):
+                new = list(base)
+                new[i] = t
+                res.append(new)
+    elif k == 'struct':
+        base = next((v for v in V.valid(spec, entry) if len(v) == len(spec[1])), None)
+        if base is not None:
+            for name, m in spec[1]:
+                for t in extra_valid(m, entry):
+                    new = dict(base)
+                    new[name] = t
+                    res.append(new)
+    return res
+
+
 def rt_class(spec):
     e = env()
     cls = e['rtcls'].get(spec)
@@ -1470,7 +1513,8 @@ def check_roundtrip(part, spec, only=None):
             m = node.secnode.modules['m']
             m.writeInitParams()
             conn = node.connect()
-            jobs = [('client', 'p', w) for w in V.valid(spec, 'wire')] + [('driver', 'r', d) for d in V.valid(spec, 'drv')]
+            jobs = [('client', 'p', w) for w in V.valid(spec, 'wire') + extra_valid(spec, 'wire')] + \
+                   [('driver', 'r', d) for d in V.valid(spec, 'drv') + extra_valid(spec, 'drv')]
             scratch = core.Part()
             for j, (path, x, v) in enumerate(jobs):
                 # the jobs run on one live module, one after the other: a replay re-executes the jobs before the recorded one
